@@ -1,4 +1,5 @@
 (* Props/C19.v — property C19: step attributes dispatch functions as written (the generated glue). *)
+From CV Require Proofs.ReviewP Check.C19Check.
 From CV Require Import Model.Base Model.Glue Proofs.BaseP Proofs.GlueP.
 
 (* on a match the function receives the capture groups parsed with FromStr, in declaration order, one each *)
@@ -39,3 +40,104 @@ Example C19_nonvacuous :
            [(None, lit "an dog and 3"); (Some (lit "__0_0"), []); (Some (lit "__0_1"), lit "dog"); (None, lit "3")]
   = ORan [lit "dog"; lit "3"].
 Proof. vm_compute. reflexivity. Qed.
+
+
+(* ---------- the statements asked for by the review of the statements (finding H5) ----------
+   `C19_args_in_order` above demands that EVERY type parses EVERY group; only equal positions matter: *)
+Theorem C19_args_positionwise :
+  forall parse tys it i,
+    Forall plain it -> (length tys <= length it)%nat ->
+    (forall k ty c, nth_error tys k = Some ty -> nth_error it k = Some c -> parse ty (snd c) <> None) ->
+    exists ds, extract_args parse i (map ATyped tys) it = ORan ds /\ length ds = length tys /\
+               forall k ty c, nth_error tys k = Some ty -> nth_error it k = Some c -> nth_error ds k = parse ty (snd c).
+Proof. exact ReviewP.args_in_order_nth. Qed.
+Print Assumptions C19_args_positionwise.
+
+(* the (u32, String) function on "3 and dog", which the old hypothesis excluded *)
+Example C19_positionwise_nonvacuous :
+  run_glue ReviewP.ex_parse (SArgs [ATyped 1; ATyped 2]) ((None, lit "3 and dog") :: ReviewP.ex_it) = ORan [lit "3"; lit "dog"]
+  /\ ~ (forall ty c, In ty [1; 2] -> In c ReviewP.ex_it -> ReviewP.ex_parse ty (snd c) <> None).
+Proof. split; [exact ReviewP.ex_u32_string_runs | exact ReviewP.ex_old_hypothesis_fails]. Qed.
+
+(* THE GENERAL FORM: `#[step]` arguments anywhere among the arguments (they consume no group and receive the step),
+   and `__N_`-named group families (a multi-group parameter consumes its whole family and passes the first
+   non-empty member: `group_text`). `gs` is the segmentation of the captures into maximal families, which
+   always exists (`C19_every_capture_list_segments`); the k-th argument, if typed, gets the parse of group number
+   "typed arguments before k". *)
+Theorem C19_every_capture_list_segments :
+  forall it, exists gs, concat gs = it /\ ReviewP.groups_sep gs [].
+Proof. exact ReviewP.segmentation_exists. Qed.
+Print Assumptions C19_every_capture_list_segments.
+
+Theorem C19_args_with_step_and_families :
+  forall parse args gs rest i,
+    ReviewP.groups_sep gs rest -> length gs = ReviewP.count_typed args ->
+    (forall k ty g, nth_error args k = Some (ATyped ty) ->
+                    nth_error gs (ReviewP.count_typed (firstn k args)) = Some g ->
+                    parse ty (ReviewP.group_text g) <> None) ->
+    exists ds, extract_args parse i args (concat gs ++ rest) = ORan ds /\
+      length ds = length args /\
+      (forall k, nth_error args k = Some AStep -> nth_error ds k = Some (lit "<step>")) /\
+      (forall k ty, nth_error args k = Some (ATyped ty) ->
+         exists g, nth_error gs (ReviewP.count_typed (firstn k args)) = Some g /\
+                   nth_error ds k = parse ty (ReviewP.group_text g)).
+Proof. exact ReviewP.args_general_nth. Qed.
+Print Assumptions C19_args_with_step_and_families.
+
+Theorem C19_parse_failure_panics_general :
+  forall parse args1 gs1 ds1, ReviewP.passes parse args1 gs1 ds1 ->
+    forall ty args2 g rest i,
+      ReviewP.groups_sep (gs1 ++ [g]) rest -> parse ty (ReviewP.group_text g) = None ->
+      extract_args parse i (args1 ++ ATyped ty :: args2) (concat gs1 ++ g ++ rest)
+      = OParseFailed (i + ReviewP.count_typed args1).
+Proof. exact ReviewP.parse_failure_general. Qed.
+Print Assumptions C19_parse_failure_panics_general.
+
+(* the groups run out at ANY typed argument (not only the last one) *)
+Theorem C19_too_few_groups_panics_general :
+  forall parse args1 gs1 ds1, ReviewP.passes parse args1 gs1 ds1 ->
+    forall ty args2 i, ReviewP.groups_sep gs1 [] ->
+      extract_args parse i (args1 ++ ATyped ty :: args2) (concat gs1) = ONotFound (i + ReviewP.count_typed args1).
+Proof. exact ReviewP.too_few_groups_general. Qed.
+Print Assumptions C19_too_few_groups_panics_general.
+
+(* the slice variant on `run_glue`, with the `#[step]` argument before or after the slice; and its failure *)
+Theorem C19_slice_with_step_and_families :
+  forall parse ty sf sl gs ds m0,
+    Forall2 (fun g d => parse ty (ReviewP.group_text g) = Some d) gs ds -> ReviewP.groups_sep gs [] ->
+    run_glue parse (SSlice ty sf sl) (m0 :: concat gs)
+    = ORan ((if sf then [lit "<step>"] else []) ++ [join_comma ds] ++ (if sl then [lit "<step>"] else [])).
+Proof. exact ReviewP.run_glue_slice. Qed.
+Print Assumptions C19_slice_with_step_and_families.
+
+Theorem C19_slice_parse_failure_panics :
+  forall parse ty sf sl gs1 ds1 g rest m0,
+    Forall2 (fun g d => parse ty (ReviewP.group_text g) = Some d) gs1 ds1 ->
+    ReviewP.groups_sep (gs1 ++ [g]) rest -> parse ty (ReviewP.group_text g) = None ->
+    run_glue parse (SSlice ty sf sl) (m0 :: concat gs1 ++ g ++ rest) = OParseFailed (length gs1).
+Proof. exact ReviewP.run_glue_slice_parse_failure. Qed.
+Print Assumptions C19_slice_parse_failure_panics.
+
+(* "a returned Err makes the step fail": the verdict of the correspondence check (Check/C19Check.v, whose
+   `expected` is evaluated against the observation of the real generated code) accepts, for a function that
+   ran and returned Err, only the observation "the step failed with that Err"; and the expected observation is
+   ObErr EXACTLY when the glue ran the function and it returned Err *)
+Theorem C19_err_expected_iff_function_returns_err :
+  forall c p a att fn args,
+    C19Check.pr_cands p = [a] -> find (fun x => (C19Check.at_id x =? a)%N) (C19Check.g_attrs c) = Some att ->
+    (fst (C19Check.expected c p) = C19Check.ObErr fn args <->
+     fn = C19Check.at_fn att /\
+     run_glue (C19Check.parse_of c) (C19Check.at_sig att) (C19Check.pr_matches p) = ORan args /\
+     ReviewP.returns_err att args = true).
+Proof. exact ReviewP.err_iff_function_returns_err. Qed.
+Print Assumptions C19_err_expected_iff_function_returns_err.
+
+Theorem C19_returned_err_must_fail_the_step :
+  forall c p a att args,
+    C19Check.pr_cands p = [a] -> find (fun x => (C19Check.at_id x =? a)%N) (C19Check.g_attrs c) = Some att ->
+    run_glue (C19Check.parse_of c) (C19Check.at_sig att) (C19Check.pr_matches p) = ORan args ->
+    ReviewP.returns_err att args = true ->
+    C19Check.obs_eqb (fst (C19Check.expected c p)) (C19Check.pr_obs p) = true ->
+    C19Check.pr_obs p = C19Check.ObErr (C19Check.at_fn att) args.
+Proof. exact ReviewP.returned_err_must_fail_the_step. Qed.
+Print Assumptions C19_returned_err_must_fail_the_step.
